@@ -6,7 +6,7 @@ VARIANTS = [
     V('set-without-sync', F, ("self.TAA[ind] = val\n        self.TAAtoTM()\n        return self", "self.TAA[ind] = val\n        return self"), 'fire', 'tm.set'),
     V('setitem-early-return', F, ("self.TAA[ind] = val\n        else:", "self.TAA[ind] = val\n            return\n        else:"), 'fire', 'tm.__setitem__'),
     V('setquat-wrong-direction', F, ("self.TM[0:3, 0:3] = R.from_quat(quaternion).as_matrix()\n        self.TMtoTAA()", "self.TM[0:3, 0:3] = R.from_quat(quaternion).as_matrix()\n        self.TAAtoTM()"), 'fire', 'tm.setQuat'),
-    V('anglemod-flag-reset', F, ("self.TAA[i, 0] = self.TAA[i, 0] % (np.pi)", "self.TAA[i, 0] = self.TAA[i, 0] % (np.pi)\n                refresh = 0"), 'fire', 'tm.angleMod'),
+    V('anglemod-flag-reset', F, ("self.TAA[i, 0] = self.TAA[i, 0] % (2 * np.pi)", "self.TAA[i, 0] = self.TAA[i, 0] % (2 * np.pi)\n                refresh = 0"), 'fire', 'tm.angleMod'),
     V('anglemod-sync-only-first', F, ("if refresh == 1:\n            self.TAAtoTM()", "if refresh == 2:\n            self.TAAtoTM()"), 'fire', 'tm.angleMod'),
     V('new-setter-forgets-sync', F, ("def sTAA(self, TAA):", "def sPos(self, pos):\n        self.TAA[0:3, 0] = pos\n\n    def sTAA(self, TAA):"), 'fire', 'tm.sPos'),
     V('copy-mixed-sources', F, ("copy.TAA = np.copy(self.TAA)", "copy.TAA = np.copy(copy.TAA)"), 'fire', 'tm.copy'),
